@@ -28,16 +28,21 @@ ASSUMES = [
 ALPHA = ["a", " ", ";", "&", "|", "'", '"', "\\", "#", "`"]
 
 
+SPECIAL = {"assign": 0, "cdfail": 1, "nf": 127}
+
+
 def ref_exec(prog):
-    """Reference semantics of the property: prog = [(op, status_or_None, marker)], op of the first is ';'.
-    Returns (list of (marker, prev_status_seen)), final status)."""
+    """Reference semantics of the property: prog = [(op, st, marker)], op of the first is ';'.
+    st: int = helper exits with it; None = helper exits with $? (a probe); "assign" = assignment-only
+    pipeline V=1 (status 0); "cdfail" = builtin `cd` to a missing directory (status 1); "nf" = command not
+    found (status 127). Returns (executed elements as (marker, status seen before, st), final status)."""
     status = 0
     ran = []
     for op, st, m in prog:
         run = op == ";" or (op == "&&" and status == 0) or (op == "||" and status != 0)
         if run:
-            ran.append((m, status))
-            status = status if st is None else st
+            ran.append((m, status, st))
+            status = status if st is None else SPECIAL.get(st, st)
     return ran, status
 
 
@@ -48,6 +53,15 @@ def render(prog, hp, rng, decoys):
             sp1 = rng.choice(["", " ", "  "]) if decoys else " "
             sp2 = rng.choice(["", " ", "  "]) if decoys else " "
             parts.append(sp1 + op + sp2)
+        if st == "assign":
+            parts.append("V%s=1" % m[1:])
+            continue
+        if st == "cdfail":
+            parts.append("cd /nonexistent_zz_dir")
+            continue
+        if st == "nf":
+            parts.append("nosuchcmd_zz")
+            continue
         ctl = "@x$?" if st is None else "@x%d" % st
         seg = "%s %s %s" % (hp, ctl, m)
         if decoys:
@@ -67,13 +81,21 @@ def gen_programs(ctx):
         for ops in itertools.product([";", "&&", "||"], repeat=k - 1):
             for sts in itertools.product([0, 1], repeat=k):
                 progs.append([((";" if i == 0 else ops[i - 1]), sts[i], "m%d" % i) for i in range(k)])
+    # pipelines that are not an external program: assignment-only, a failing builtin, command not found --
+    # each after a pipeline that ended with a status other than 0/1, followed by a $? probe or the end of the line
+    for sp in ("assign", "cdfail", "nf"):
+        for st0 in (7, 42, 0):
+            for op in (";", "&&", "||"):
+                progs.append([(";", st0, "m0"), (op, sp, "m1"), (";", None, "m2")])
+                progs.append([(";", st0, "m0"), (op, sp, "m1")])
+                progs.append([(";", st0, "m0"), (op, sp, "m1"), ("&&", None, "m2"), ("||", None, "m3")])
     nrand = 600 if ctx.thorough else 120
     for _ in range(nrand):
         k = rng.randint(2, 12)
         p = []
         for i in range(k):
             op = ";" if i == 0 else rng.choice([";", "&&", "||"])
-            st = rng.choice([0, 0, 1, 1, 2, 3, 7, 42, 127, 255, None])
+            st = rng.choice([0, 0, 1, 1, 2, 3, 7, 42, 127, 255, None, None, "assign", "cdfail", "nf"])
             p.append((op, st, "m%d" % i))
         progs.append(p)
     return progs
@@ -186,10 +208,10 @@ def run(ctx, res):
                 got.append((a[2] if len(a) > 2 else "?", a[1] if len(a) > 1 else "?"))
             # expected helper view: marker, control word after $? expansion
             exp = []
-            st = 0
-            for (m, prev) in exp_ran:
-                cell = [c for c in p if c[2] == m][0]
-                ctl = "@x%d" % (prev if cell[1] is None else cell[1])
+            for (m, prev, st_) in exp_ran:
+                if st_ in SPECIAL:
+                    continue        # not a helper: leaves no trace record, only a status
+                ctl = "@x%d" % (prev if st_ is None else st_)
                 exp.append((m, ctl))
             impl_obs = "ran=%r status=%r" % (got, rc)
             ref_obs = "ran=%r status=%r" % (exp, exp_status)
